@@ -895,6 +895,12 @@ pub fn gen_vrf(rng: &mut Rng, thorough: bool, out: &mut Vec<String>) {
             let l = rng.bytes(n);
             out.push(format!("vrfin {cfg} {} {} {}", hex_or_dash(&l), if rng.chance(1, 2) { "F" } else { "S" }, rng.next()));
         }
+        // every label length: the real input against the model's byte string, and the collision oracle
+        for len in 0..=(if thorough { 600 } else { 300 }) {
+            let l: Vec<u8> = (0..len).map(|i| (i * 5 + len) as u8).collect();
+            out.push(format!("vrfin {cfg} {} {} {}", hex_or_dash(&l), if len % 2 == 0 { "F" } else { "S" }, 0x0102_0304_0506_0700u64 + (len as u64 % 3)));
+        }
+        out.push(format!("o.vrfin.sweep {cfg} {}", if thorough { 1100 } else { 320 }));
         // the oracle over the public API (each line runs ~260 verifications)
         let nl = if thorough { labels.len() } else { 5 };
         for l in labels.iter().take(nl) {
